@@ -33,6 +33,12 @@ Print Assumptions C13_not_involutive.
 Theorem C13_not_signed : forall fx cx, 1 <= nw fx -> sg fx = true -> in_range fx cx -> invert_raw fx cx = - cx - 1.
 Proof. exact invert_signed_neg. Qed.
 Print Assumptions C13_not_signed.
+(* De Morgan's laws, at every width *)
+Theorem C13_de_morgan : forall fx cx cy, 1 <= nw fx -> in_range fx cx -> in_range fx cy ->
+  invert_raw fx (bitwise_raw BAnd fx cx cy) = bitwise_raw BOr fx (invert_raw fx cx) (invert_raw fx cy) /\
+  invert_raw fx (bitwise_raw BOr fx cx cy) = bitwise_raw BAnd fx (invert_raw fx cx) (invert_raw fx cy).
+Proof. exact demorgan. Qed.
+Print Assumptions C13_de_morgan.
 Theorem C13_word_mismatch_rejected : forall b fx cx nwy cy r o, nw fx <> nwy -> fxp_bitwise b fx cx true nwy cy r o = Exc ValueError.
 Proof. exact mismatch_rejected. Qed.
 Print Assumptions C13_word_mismatch_rejected.
